@@ -350,3 +350,33 @@ package lossy
 //@   callsite needsFilter2At: assert arg0 == p && arg1 == base + j*bps && arg2 == 1 && arg3 == 2*thresh + 1 && arg4 == ithresh
 //@   callsite doSimpleFilter2: assert arg0 == p && arg1 == base + j*bps && arg2 == 1 && dsp.SpecHev(int(p[off-2*1]), int(p[off-1]), int(p[off]), int(p[off+1]), hevThresh)
 //@   callsite doSimpleFilter4: assert arg0 == p && arg1 == base + j*bps && arg2 == 1 && !dsp.SpecHev(int(p[off-2*1]), int(p[off-1]), int(p[off]), int(p[off+1]), hevThresh)
+//
+// Which edges of a macroblock are filtered, with which limits: the left /
+// top macroblock edge only when there is a neighbour (mbX > 0 / mbY > 0), with
+// the edge limit raised by 4 (RFC 6386 section 15.2: mbedge_limit =
+// ((loop_filter_level + 2) * 2) + interior_limit, sub_bedge_limit = level * 2 +
+// interior_limit; FLimit holds 2*level + ilevel, so the macroblock edge uses
+// FLimit + 4), the inner edges only when the macroblock has inner filtering,
+// with the plain limit; luma planes 16 wide, chroma 8; nothing at all when
+// the limit is 0.
+//@ func (dec *Decoder) doFilter
+//@   property C04
+//@   nosafety
+//@   requires dec != nil
+//@   modifies *
+//@   abstract simpleHFilter16At, simpleHFilter16iAt, SimpleVFilter16, SimpleVFilter16i, filterLoop26At, filterLoop26HAt, filterLoop26VAt, hFilter16iAt, hFilter8iAt, vFilter16iAt, vFilter8iAt
+//@   callsite simpleHFilter16At: assert dec.filterType == 1 && mbX > 0 && limit != 0 && limit == int(dec.fInfo[mbX].FLimit) && arg3 == limit + 4
+//@   callsite simpleHFilter16iAt: assert dec.filterType == 1 && dec.fInfo[mbX].FInner && arg3 == limit
+//@   callsite SimpleVFilter16: assert dec.filterType == 1 && mbY > 0 && arg3 == limit + 4
+//@   callsite SimpleVFilter16i: assert dec.filterType == 1 && dec.fInfo[mbX].FInner && arg3 == limit
+//@   callsite filterLoop26At: assert dec.filterType != 1 && mbX > 0 && limit != 0 && arg3 == 16 && arg4 == limit + 4 && arg5 == ilevel && arg6 == hevT
+//@   callsite filterLoop26HAt: assert dec.filterType != 1 && mbX > 0 && arg3 == 8 && arg4 == limit + 4 && arg5 == ilevel && arg6 == hevT
+//@   callsite filterLoop26VAt: assert dec.filterType != 1 && mbY > 0 && arg4 == limit + 4 && arg5 == ilevel && arg6 == hevT
+//@   callsite filterLoop26VAt#0: assert arg3 == 16
+//@   callsite filterLoop26VAt#1: assert arg3 == 8
+//@   callsite filterLoop26VAt#2: assert arg3 == 8
+//@   callsite hFilter16iAt: assert dec.filterType != 1 && dec.fInfo[mbX].FInner && arg3 == limit && arg4 == ilevel && arg5 == hevT
+//@   callsite vFilter16iAt: assert dec.filterType != 1 && dec.fInfo[mbX].FInner && arg3 == limit && arg4 == ilevel && arg5 == hevT
+//@   callsite hFilter8iAt: assert dec.fInfo[mbX].FInner && arg4 == limit && arg5 == ilevel && arg6 == hevT
+//@   callsite vFilter8iAt: assert dec.fInfo[mbX].FInner && arg4 == limit && arg5 == ilevel && arg6 == hevT
+//@   callsite filterLoop26At: assert ilevel == int(dec.fInfo[mbX].FILevel) && hevT == int(dec.fInfo[mbX].HevThresh) && limit == int(dec.fInfo[mbX].FLimit)
